@@ -137,11 +137,82 @@ end
 
 def resolveFuel : Nat := 12
 
-/-- `get_revisions(id_)` for a single string (non-negative-integer branch omitted: the command
-    layer never passes a bare negative number here, the relative regex catches it first) -/
+/-- `filter_for_lineage` on resolved revision ids -/
+def filterForLineage (m : LMap) (targets : List Id) (against : String) (inclDeps : Bool) : Except Err (List Id) := do
+  let shares ← resolveShares m resolveFuel against
+  pure (targets.filter (fun t => sharesLineage m t shares inclDeps))
+
+/-- one step; `cur = none` is base. Result `none` = ran off the tree. `"base"` as a separate
+    value is folded into `none` (walking down from base gives no children). -/
+def walkStep (m : LMap) (up : Bool) (label : Option String) (cur : Option Id) (atBaseMarker : Bool) :
+    Except Err (Option (Option Id × Bool)) := do
+  if up then
+    let start := match cur with
+      | none => m.bases
+      | some i => m.nextrev i
+    let children ← match label with
+      | some l => if l.isEmpty then pure start else filterForLineage m start l false
+      | none => pure start
+    match children with
+    | [] => pure none
+    | [c] => pure (some (some c, false))
+    | _ => throw .revisionError       -- "Ambiguous walk"
+  else
+    if atBaseMarker then pure none
+    else
+      let children := match cur with
+        | none => m.heads
+        | some i => m.downOf i
+      match children with
+      | [] => pure (some (none, true))   -- children = ("base",)
+      | [c] => pure (some (some c, false))
+      | _ => throw .revisionError
+
+/-- `_walk(start, steps, branch_label, no_overwalk)`: `none` = the Python `None` return for an
+    overwalk; `some none` = base -/
+def walk (m : LMap) (start : Option Id) (steps : Int) (label : Option String) (noOverwalk : Bool) :
+    Except Err (Option (Option Id)) :=
+  let rec go : Nat → Option Id → Bool → Except Err (Option (Option Id))
+    | 0, cur, _ => .ok (some cur)
+    | n + 1, cur, marker => do
+      match ← walkStep m (steps > 0) label cur marker with
+      | none => pure (if noOverwalk then none else some cur)
+      | some (nxt, mk) => go n nxt mk
+  go steps.natAbs start false
+
+/-- a resolved identifier that Python's `int()` reads as a negative number (`-3`); only the plain
+    ASCII spelling is modelled -/
+def negInt? (s : String) : Option Nat :=
+  match s.toList with
+  | '-' :: ds => if !ds.isEmpty && ds.all Char.isDigit then some (String.ofList ds).toNat! else none
+  | _ => none
+
+/-- `get_revisions(id_)` for a single string.  A bare negative number (`-2`, `label@-2`) means
+    "that many steps below each head (of the labelled branch)": `_walk(head, steps=-n)` for every
+    real head; a walk that ends exactly at base yields the string `"base"`, one that overshoots
+    yields `None`. -/
 def getRevisions (m : LMap) (ident : String) : Except Err (List (Option Id)) := do
   let (ids, label) ← resolveRevisionNumber m resolveFuel ident
-  ids.mapM (fun i => revisionForIdent m resolveFuel i label)
+  let plain := ids.mapM (fun i => revisionForIdent m resolveFuel i label)
+  match ids with
+  | [one] =>
+    match negInt? one with
+    | some n =>
+      if n > 0 then do
+        let heads ← m.realHeads.mapM (fun i => revisionForIdent m resolveFuel i none)
+        let heads := heads.filterMap id
+        let sel := match label with
+          | some l => heads.filter (fun h => decide (l ∈ m.labelsOf h))
+          | none => heads
+        sel.mapM (fun h => do
+          let r ← walk m (some h) (-(n : Int)) none true
+          pure (match r with
+            | none => none
+            | some none => some "base"
+            | some (some x) => some x))
+      else plain
+    | none => plain
+  | _ => plain
 
 /-- `get_revisions` of a tuple of identifiers (`sum(..., ())`) -/
 def getRevisionsMany (m : LMap) (idents : List String) : Except Err (List (Option Id)) := do
@@ -159,11 +230,6 @@ def getRevision (m : LMap) (ident : String) : Except Err (Option Id) := do
     | none => pure none
   | [i] => revisionForIdent m resolveFuel i label
   | _ => throw .multipleHeads
-
-/-- `filter_for_lineage` on resolved revision ids -/
-def filterForLineage (m : LMap) (targets : List Id) (against : String) (inclDeps : Bool) : Except Err (List Id) := do
-  let shares ← resolveShares m resolveFuel against
-  pure (targets.filter (fun t => sharesLineage m t shares inclDeps))
 
 /-! ## the regular expression `(?:(.+?)@)?(\w+)?((?:\+|-)\d+)` used with `re.match` -/
 
@@ -209,43 +275,5 @@ def matchRelative (t : String) : Option (Option String × Option String × Int) 
     | none => none
 
 /-! ## `_walk` -/
-
-/-- one step; `cur = none` is base. Result `none` = ran off the tree. `"base"` as a separate
-    value is folded into `none` (walking down from base gives no children). -/
-def walkStep (m : LMap) (up : Bool) (label : Option String) (cur : Option Id) (atBaseMarker : Bool) :
-    Except Err (Option (Option Id × Bool)) := do
-  if up then
-    let start := match cur with
-      | none => m.bases
-      | some i => m.nextrev i
-    let children ← match label with
-      | some l => if l.isEmpty then pure start else filterForLineage m start l false
-      | none => pure start
-    match children with
-    | [] => pure none
-    | [c] => pure (some (some c, false))
-    | _ => throw .revisionError       -- "Ambiguous walk"
-  else
-    if atBaseMarker then pure none
-    else
-      let children := match cur with
-        | none => m.heads
-        | some i => m.downOf i
-      match children with
-      | [] => pure (some (none, true))   -- children = ("base",)
-      | [c] => pure (some (some c, false))
-      | _ => throw .revisionError
-
-/-- `_walk(start, steps, branch_label, no_overwalk)`: `none` = the Python `None` return for an
-    overwalk; `some none` = base -/
-def walk (m : LMap) (start : Option Id) (steps : Int) (label : Option String) (noOverwalk : Bool) :
-    Except Err (Option (Option Id)) :=
-  let rec go : Nat → Option Id → Bool → Except Err (Option (Option Id))
-    | 0, cur, _ => .ok (some cur)
-    | n + 1, cur, marker => do
-      match ← walkStep m (steps > 0) label cur marker with
-      | none => pure (if noOverwalk then none else some cur)
-      | some (nxt, mk) => go n nxt mk
-  go steps.natAbs start false
 
 end Model.Rev
